@@ -120,6 +120,10 @@ type Fault struct {
 	ReadEOFAfter int
 	// FailRead / FailWrite >= 1: the k-th Read / Write call returns Err.
 	FailRead, FailWrite int
+	// ReadDataErr >= 1: the k-th Read call delivers its bytes as usual and
+	// returns Err together with them, once (io.Reader allows a non-nil error
+	// with n > 0; a transient condition reported this way is not repeated).
+	ReadDataErr int
 	// WriteBreakAfter >= 0: writes succeed until that many bytes were accepted;
 	// the write that crosses the limit is cut short and fails with Err.
 	WriteBreakAfter int
@@ -356,6 +360,7 @@ func (c *Conn) Read(p []byte) (int, error) {
 	k := c.nRead
 	act := c.opStart()
 	failAt := c.fault.FailRead
+	dataErrAt := c.fault.ReadDataErr
 	c.mu.Unlock()
 	if act != nil {
 		act()
@@ -406,6 +411,9 @@ func (c *Conn) Read(p []byte) (int, error) {
 			c.delivered += n
 			c.recIn = append(c.recIn, p[:n]...)
 			c.mu.Unlock()
+			if dataErrAt > 0 && k == dataErrAt {
+				return n, c.faultErr()
+			}
 			return n, nil
 		}
 		if c.in.eof {
